@@ -438,6 +438,7 @@ func c01Body(c *ev.Ctx) {
 		}
 		r.run("BN254 compiled InsertionMbuCircuit (11,2) after (1,12) was compiled in the same process", hc)
 	}
+	runPairIsolation(c, c01Pairs())
 	r.finish("C01")
 	c.Set("rule", "cases = inputs of the circuit/gadget (enumerated completely over F_47/F_5(/F_7), over all leaf-vector states x operation menu on BN254); non-trivial = reference relation holds (valid append); every case is decided by the implementation (R1CS search with all hint values / gnark engine) and by the reference relation")
 	c.Assume("BN254 values range over the alphabets {0,1,r-1} (+ boundary indices); whole-field exhaustiveness is over F_5, F_7 (thorough), F_47")
